@@ -186,6 +186,12 @@ class CallsMixin:
         if n == "float.is_integer":
             return V.vbool(z3.IsInt(sv.d))
         if n.startswith("logger."):
+            # only records at WARNING level or above are "reports" (C14: an unparsable line is reported
+            # once); debug / info records are diagnostics without effect on the ghost counter.  (False
+            # alarm found by benign commit BEN-R9B7-2, which adds logger.debug calls everywhere.)
+            if n.split(".", 1)[1] in ("debug", "info", "log", "isEnabledFor", "getEffectiveLevel"):
+                self.ctx.assumptions.add("logging below WARNING level has no effect on program state and is not a report")
+                return VNONE
             return self.log_call(st)
         if n == "str.format":
             return V.fresh(STR, "fmt")
